@@ -89,6 +89,10 @@ def history(rng, n_req, sig_extra=()):
                 plan.append((sq, right, 'match'))
         for _ in range(rng.randrange(0, 4)):
             plan.append((rng.randrange(100, 200), rng.choice(('submitresp', 'nack', 'enqresp')), 'unknown'))
+        # numbers no request ever carries: 0 (a generic_nack may come with a NULL sequence number) and values beyond the range
+        for _ in range(rng.randrange(0, 3)):
+            plan.append((rng.choice((0, 0, 0x7FFFFFFF, 0x80000000, 0xFFFFFFFF)), rng.choice(('nack', 'nack', 'submitresp', 'enqresp')),
+                         'no-such-number'))
         rng.shuffle(plan)
         live = dict(outstanding)
         for (sq, rk, label) in plan:
